@@ -128,9 +128,13 @@ def saveBlock (r : Replica) (e : Env) (q : CommitQC) : List Effect × Bool :=
   match r.proposals.find? (fun p => p.1 == q.message.proposal.number && p.2.id == q.message.proposal.payload) with
   | none => ([], true)
   | some _ =>
-    -- `queue_block` first waits until `queued.next() ≥ number`
+    -- `queue_block` first waits until `queued.next() ≥ number`; `try_push` then appends the block only if it is
+    -- exactly the next one, and the store's queueing task hands over only blocks at or above `persisted.next()`
+    -- (a block the store already has — e.g. obtained by block sync — is not handed over again)
     if q.message.proposal.number > e.storeNext then ([], false)
-    else ([.queueBlock q.message.proposal.number q.message.proposal.payload q], true)
+    else if q.message.proposal.number = e.storeNext ∧ e.persistedNext ≤ q.message.proposal.number then
+      ([.queueBlock q.message.proposal.number q.message.proposal.payload q], true)
+    else ([], true)
 
 /-- `process_commit_qc`; the Bool is false when `save_block` is stuck -/
 def processCommitQC (r : Replica) (e : Env) (q : CommitQC) : Replica × List Effect × Bool :=
